@@ -341,6 +341,14 @@ func genC16(g *prng.R) c16Case {
 		sc.Cfg.SocWrapped = true
 	}
 	sc.Requests = []sim.Request{sim.PostOutboxReq(aliceOut(), withCtx(act))}
+	if typ == "Update" && n == 1 && g.Chance(1, 12) {
+		// the same Update under an aliased vocabulary, against objects stored
+		// without one: merged, the two spellings may not decode - then the
+		// request has to fail, not be accepted without its effect
+		sc.Requests[0].Body = aliasDoc(act)
+		cs.Info["may_fail"] = true
+		cs.Info["aliased_context"] = true
+	}
 	return cs
 }
 
@@ -377,6 +385,16 @@ func init() {
 					if e.Kind == "tp.BatchDeliver" {
 						viol("missing-member-delivered", e.Site, "delivery", "a rejected activity was delivered")
 					}
+				}
+				r.NonTrivial(jstr(sc.Requests[0].Body))
+				return
+			}
+			if cs.Info["may_fail"] == true && rp.Err != "" && len(rp.Statuses) == 0 {
+				// an outcome the statement allows for this input (an error,
+				// nothing changed); what must not happen is acceptance
+				// without the effect, which the rules below would report
+				if ch := storeChanges(res.Before, res.After); len(ch) > 0 {
+					viol("store-delta", site, cs.Typ+": failed but changed the store", fmt.Sprintf("changes=%v err=%s", ch, rp.Err))
 				}
 				r.NonTrivial(jstr(sc.Requests[0].Body))
 				return
